@@ -91,10 +91,27 @@ def reaction_size(rxn):
     return mx, nm
 
 
-@functools.lru_cache(maxsize=None)
-def load_reactions_capped(kind, max_heavy=30, max_mols=4):
+def _capped_all(kind, max_heavy=30, max_mols=4):
     return tuple(r for r in load_reactions(kind)
                  if (lambda s: s[0] <= max_heavy and s[1] <= max_mols)(reaction_size(r)))
+
+
+@functools.lru_cache(maxsize=None)
+def slow_mcs():
+    """corpus reactions whose MCS stage was measured slower than 0.30 s (seeds/measure_slow_mcs.py)"""
+    path = os.path.join(SEEDS, "slow_mcs.txt")
+    if not os.path.exists(path):
+        return frozenset()
+    with open(path) as f:
+        return frozenset(l.rstrip("\n") for l in f if l.strip())
+
+
+@functools.lru_cache(maxsize=None)
+def load_reactions_capped(kind, max_heavy=30, max_mols=4):
+    """size-capped pool; for the 'input' corpus also without the reactions whose substructure search is slow enough
+    to come near the code's wall-clock limits (they stay in the full-corpus shards of the single-execution checks)"""
+    slow = slow_mcs() if kind == "input" else frozenset()
+    return tuple(r for r in _capped_all(kind, max_heavy, max_mols) if r not in slow)
 
 
 def indexed(seq):
